@@ -80,7 +80,7 @@ def main():
     if sys.argv[1] == 'import':
         src = sys.argv[2]
         for n in sorted(os.listdir(src)):
-            if re.fullmatch(r'[CH]\d\d_\d', n) and os.path.exists(os.path.join(src, n, 'patch.diff')):
+            if re.fullmatch(r'[CH]\d\d_\d+', n) and os.path.exists(os.path.join(src, n, 'patch.diff')):
                 dst = os.path.join(SEEDED, n)
                 if not os.path.exists(dst):
                     shutil.copytree(os.path.join(src, n), dst)
